@@ -30,7 +30,7 @@ type Case struct {
 	Query   string `json:"raw_query"`
 	Headers string `json:"headers"` // none|single|repeated|lower
 	Cookies string `json:"cookies"`
-	Body    string `json:"body"` // none|json|form|badjson|json-chunked|form-chunked
+	Body    string `json:"body"` // none|json|form|badjson|json-chunked|form-chunked|json-type-without-body|form-type-without-body
 	// ForwardAuth: the decision service is asked the way a forward-auth proxy asks it (a GET from a trusted peer that
 	// describes the original request in X-Forwarded-Method/-Proto/-Host/-Uri); the other two entry points get the request itself
 	ForwardAuth bool `json:"decision_asked_in_forward_auth_style,omitempty"`
@@ -126,7 +126,8 @@ var (
 	queries  = []string{"", "q=1&q=2", "q=a%20b"}
 	hdrKinds = []string{"none", "single", "repeated", "lower", "xfcc", "authorization"}
 	cookies  = []string{"", "c=1", "c=1; d=2", "c=1; d=2; c=3"}
-	bodies   = []string{"none", "json", "form", "badjson", "json-chunked", "form-chunked"}
+	// json-type-without-body / form-type-without-body: a client that always names its content type
+	bodies = []string{"none", "json", "form", "badjson", "json-chunked", "form-chunked", "json-type-without-body", "form-type-without-body"}
 )
 
 func (cs *Case) req() *hx.Req {
@@ -160,6 +161,10 @@ func (cs *Case) req() *hx.Req {
 	case "badjson":
 		r.Body = `{"a":`
 		r.Header = append(r.Header, [2]string{"Content-Type", "application/json"})
+	case "json-type-without-body":
+		r.Header = append(r.Header, [2]string{"Content-Type", "application/json"})
+	case "form-type-without-body":
+		r.Header = append(r.Header, [2]string{"Content-Type", "application/x-www-form-urlencoded"})
 	}
 
 	// a body of unknown length for the HTTP entry points (chunked transfer); Envoy hands over the buffered body either way
@@ -440,7 +445,7 @@ func cases(quick bool) []Case {
 										continue
 									}
 
-									if m == "GET" && b != "none" {
+									if m == "GET" && b != "none" && !strings.HasSuffix(b, "-without-body") {
 										continue
 									}
 
